@@ -276,6 +276,56 @@ def handleTup (fields : List String) : String :=
     | none => "bad-case"
   | _ => "bad-case"
 
+/-- one public function of the ellipsoid module on a named ellipsoid -/
+def handleEll (fields : List String) : String :=
+  match fields with
+  | [name, fn, argsS] =>
+    match (Ellipsoid.named (u name) : Option (Ellipsoid Float)) with
+    | none => "err"
+    | some e =>
+      let a := if argsS == "-" then [] else (argsS.splitOn ",").map parseFloat
+      let four (c : Coor Float) : String := ",".intercalate ([c.c0, c.c1, c.c2, c.c3].map fbits)
+      match fn, a with
+      | "semimajor_axis", [] => fbits e.a
+      | "flattening", [] => fbits e.f
+      | "semiminor_axis", [] => fbits e.semiminorAxis
+      | "second_flattening", [] => fbits e.secondFlattening
+      | "third_flattening", [] => fbits e.thirdFlattening
+      | "aspect_ratio", [] => fbits e.aspectRatio
+      | "linear_eccentricity", [] => fbits e.linearEccentricity
+      | "eccentricity_squared", [] => fbits e.eccentricitySquared
+      | "eccentricity", [] => fbits e.eccentricity
+      | "second_eccentricity_squared", [] => fbits e.secondEccentricitySquared
+      | "second_eccentricity", [] => fbits e.secondEccentricity
+      | "polar_radius_of_curvature", [] => fbits e.polarRadiusOfCurvature
+      | "normalized_meridian_arc_unit", [] => fbits e.normalizedMeridianArcUnit
+      | "rectifying_radius", [] => fbits e.rectifyingRadius
+      | "rectifying_radius_bowring", [] => fbits e.rectifyingRadiusBowring
+      | "meridian_quadrant", [] => fbits e.meridianQuadrant
+      | "prime_vertical_radius_of_curvature", [x] => fbits (e.primeVerticalRadiusOfCurvature x)
+      | "meridian_radius_of_curvature", [x] => fbits (e.meridianRadiusOfCurvature x)
+      | "meridian_latitude_to_distance", [x] => fbits (e.meridianLatitudeToDistance x)
+      | "meridian_distance_to_latitude", [x] => fbits (e.meridianDistanceToLatitude x)
+      | "latitude_geographic_to_geocentric", [x] => fbits (e.latitudeGeographicToGeocentric x)
+      | "latitude_geocentric_to_geographic", [x] => fbits (e.latitudeGeocentricToGeographic x)
+      | "latitude_geographic_to_reduced", [x] => fbits (e.latitudeGeographicToReduced x)
+      | "latitude_reduced_to_geographic", [x] => fbits (e.latitudeReducedToGeographic x)
+      | "latitude_geographic_to_isometric", [x] => fbits (e.latitudeGeographicToIsometric x)
+      | "latitude_isometric_to_geographic", [x] => fbits (e.latitudeIsometricToGeographic x)
+      | "latitude_geographic_to_rectifying", [x] => fbits (Ellipsoid.latitudeGeographicToRectifying x e.rectifyingCoefficients)
+      | "latitude_rectifying_to_geographic", [x] => fbits (Ellipsoid.latitudeRectifyingToGeographic x e.rectifyingCoefficients)
+      | "latitude_geographic_to_conformal", [x] => fbits (Ellipsoid.latitudeFwdSeries x e.conformalCoefficients)
+      | "latitude_conformal_to_geographic", [x] => fbits (Ellipsoid.latitudeInvSeries x e.conformalCoefficients)
+      | "latitude_geographic_to_authalic", [x] => fbits (Ellipsoid.latitudeFwdSeries x e.authalicCoefficients)
+      | "latitude_authalic_to_geographic", [x] => fbits (Ellipsoid.latitudeInvSeries x e.authalicCoefficients)
+      | "cartesian", [x, y, z, t] => four (e.cartesian ⟨x, y, z, t⟩)
+      | "geographic", [x, y, z, t] => four (e.geographic ⟨x, y, z, t⟩)
+      | "geodesic_fwd", [l, b, az, d] => four (e.geodesicFwd l b az d)
+      | "geodesic_inv", [l1, b1, l2, b2] => four (e.geodesicInv l1 b1 l2 b2)
+      | "distance", [l1, b1, l2, b2] => fbits (e.distance l1 b1 l2 b2)
+      | _, _ => "bad-case"
+  | _ => "bad-case"
+
 /-- `kp`: options, operation, input files ↦ exit status and standard output -/
 def handleKp (fields : List String) : String :=
   match fields with
@@ -393,6 +443,7 @@ def handle (line : String) : String :=
   | "KP" :: rest => handleKp rest
   | "ANG" :: rest => handleAng rest
   | "TUP" :: rest => handleTup rest
+  | "ELL" :: rest => handleEll rest
   | "HIST" :: rest => handleHist rest
   | "REG" :: rest => handleReg rest
   | "PROJ" :: rest => handleProj rest
